@@ -214,7 +214,8 @@ type runner struct {
 	t    *Target
 	c    *Case
 	fail func(sig, what string)
-	// set when an index failure (offset / chunk bytes / Open) was seen
+	// set when the oracle's own reading of the index (checkTOC) failed: the verdict the proved
+	// checker must reach as well
 	indexBad bool
 	// findings: this is the separate stream of the candidate findings; their signatures are raised
 	// only there, so that the main stream stays silent on the unchanged tree and every OTHER failure or
@@ -456,8 +457,10 @@ func (rn *runner) run(maxCheck int) {
 	if verr != nil {
 		shared := false
 		seen := map[int64]bool{}
+		// Verifiers() wants the Offset of every reg / chunk entry to be unique - empty regular files
+		// (Offset 0) included
 		for _, e := range p.TOC.Entries {
-			if (e.Type == "reg" && e.Size > 0) || e.Type == "chunk" {
+			if e.Type == "reg" || e.Type == "chunk" {
 				if seen[e.Offset] {
 					shared = true
 				}
@@ -470,17 +473,14 @@ func (rn *runner) run(maxCheck int) {
 				rn.fail(SigVerifyShared, "VerifyTOC: "+verr.Error())
 			}
 		} else {
-			rn.indexBad = true
 			rn.fail("verifytoc-failed", verr.Error())
 		}
 	}
 	if err != nil {
-		rn.indexBad = true
 		rn.fail("open-failed", err.Error())
 	} else {
 		for _, n := range names {
 			if !bytes.Equal(got[n], final[n]) {
-				rn.indexBad = true
 				rn.fail("open-read-mismatch", fmt.Sprintf("file %q read through estargz.Open differs from the tar stream", n))
 				break
 			}
